@@ -7,6 +7,14 @@ use std::time::Instant;
 use crate::util::J;
 use crate::Args;
 
+pub mod c06;
+pub mod c07;
+pub mod c09;
+pub mod c14;
+pub mod c15;
+pub mod c16;
+pub mod c17;
+pub mod c18;
 pub mod sessmode;
 
 pub struct Report {
@@ -96,6 +104,14 @@ pub fn run(args: &Args) -> J {
     let mut rep = Report::new(&args.mode);
     match args.mode.as_str() {
         "sess" => sessmode::run(args, &mut rep),
+        "c07" => c07::run(args, &mut rep),
+        "c06" => c06::run(args, &mut rep),
+        "c15" => c15::run(args, &mut rep),
+        "c17" => c17::run(args, &mut rep),
+        "c16" => c16::run(args, &mut rep),
+        "c09" => c09::run(args, &mut rep),
+        "c14" => c14::run(args, &mut rep),
+        "c18" => c18::run(args, &mut rep),
         m => {
             rep.inconclusive.push(format!("unknown mode {}", m));
         }
